@@ -40,7 +40,7 @@ class InterpProp(Prop):
     components = INTERP_COMPONENTS
     ddmin_paths = [("deliveries",), ("program", "flows"), ("program", "flows", "*", "body"), ("client", "faults")]
     chunk = 40
-    run_timeout_s = 60.0
+    run_timeout_s = 240.0
 
     def setup_process(self):
         import logging
